@@ -1635,4 +1635,186 @@ mod tests {
 
 /// Verification hooks: access to the crate-private store API for the external /verif harness.
 #[cfg(maidsafe_safe_network_verif)]
-pub mod verif {}
+pub mod verif {
+    //! Added items only: public pass-throughs to the crate-private API of the node record store
+    //! (through the `UnifiedRecordStore` dispatch used by the swarm driver) and read-only views of
+    //! its private state. Nothing here changes behaviour.
+    use super::*;
+    use crate::record_store_api::UnifiedRecordStore;
+
+    pub use libp2p::identity::PeerId as StorePeerId;
+    pub use libp2p::kad::store::Error as StoreError;
+    pub use libp2p::kad::store::RecordStore as KadRecordStore;
+    pub use libp2p::kad::{Record as KadRecord, RecordKey as KadRecordKey};
+
+    pub const MAX_RECORDS_COUNT: usize = super::MAX_RECORDS_COUNT;
+    pub const MAX_RECORDS_CACHE_SIZE: usize = super::MAX_RECORDS_CACHE_SIZE;
+    pub const HISTORICAL_QUOTING_METRICS_FILENAME: &str =
+        super::HISTORICAL_QUOTING_METRICS_FILENAME;
+
+    /// Whether this build encrypts record files (`encrypt-records` feature).
+    pub fn encrypt_records_enabled() -> bool {
+        cfg!(feature = "encrypt-records")
+    }
+
+    /// The real constructor, wrapped the way `driver.rs` wraps it.
+    pub fn new_node_store(
+        local_id: PeerId,
+        config: NodeRecordStoreConfig,
+        network_event_sender: mpsc::Sender<NetworkEvent>,
+        swarm_cmd_sender: mpsc::Sender<LocalSwarmCmd>,
+    ) -> UnifiedRecordStore {
+        UnifiedRecordStore::Node(NodeRecordStore::with_config(
+            local_id,
+            config,
+            network_event_sender,
+            swarm_cmd_sender,
+        ))
+    }
+
+    fn node(s: &UnifiedRecordStore) -> &NodeRecordStore {
+        match s {
+            UnifiedRecordStore::Node(n) => n,
+            UnifiedRecordStore::Client(_) => panic!("verif hook used on a client store"),
+        }
+    }
+
+    pub fn put_verified(s: &mut UnifiedRecordStore, r: Record, t: RecordType) -> Result<()> {
+        s.put_verified(r, t)
+    }
+
+    pub fn mark_as_stored(s: &mut UnifiedRecordStore, k: Key, t: RecordType) {
+        s.mark_as_stored(k, t)
+    }
+
+    pub fn contains(s: &UnifiedRecordStore, k: &Key) -> bool {
+        s.contains(k)
+    }
+
+    pub fn record_addresses(s: &UnifiedRecordStore) -> HashMap<NetworkAddress, RecordType> {
+        s.record_addresses()
+    }
+
+    pub fn record_addresses_ref(s: &UnifiedRecordStore) -> Vec<(Key, NetworkAddress, RecordType)> {
+        s.record_addresses_ref()
+            .iter()
+            .map(|(k, (a, t))| (k.clone(), a.clone(), t.clone()))
+            .collect()
+    }
+
+    pub fn quoting_metrics(
+        s: &UnifiedRecordStore,
+        k: &Key,
+        network_size: Option<u64>,
+    ) -> (QuotingMetrics, bool) {
+        s.quoting_metrics(k, network_size)
+    }
+
+    pub fn payment_received(s: &mut UnifiedRecordStore) {
+        s.payment_received()
+    }
+
+    pub fn get_farthest_replication_distance(s: &UnifiedRecordStore) -> Option<U256> {
+        s.get_farthest_replication_distance()
+    }
+
+    pub fn set_distance_range(s: &mut UnifiedRecordStore, d: U256) {
+        s.set_distance_range(d)
+    }
+
+    pub fn get_farthest(s: &UnifiedRecordStore) -> Option<Key> {
+        s.get_farthest()
+    }
+
+    pub fn cleanup_irrelevant_records(s: &mut UnifiedRecordStore) {
+        s.cleanup_irrelevant_records()
+    }
+
+    pub fn records_within_distance_range(s: &UnifiedRecordStore, range: U256) -> usize {
+        node(s).get_records_within_distance_range(range)
+    }
+
+    // ---- read-only views of private state
+
+    pub fn records_by_distance(s: &UnifiedRecordStore) -> Vec<(U256, Key)> {
+        node(s)
+            .records_by_distance
+            .iter()
+            .map(|(d, k)| (*d, k.clone()))
+            .collect()
+    }
+
+    pub fn farthest_record(s: &UnifiedRecordStore) -> Option<(Key, U256)> {
+        node(s)
+            .farthest_record
+            .as_ref()
+            .map(|(k, d)| (k.clone(), convert_distance_to_u256(d)))
+    }
+
+    /// Cache content, oldest entry first.
+    pub fn cache_entries(s: &UnifiedRecordStore) -> Vec<(Key, Vec<u8>, SystemTime)> {
+        let mut v: Vec<_> = node(s)
+            .records_cache
+            .records_cache
+            .iter()
+            .map(|(k, (r, t))| (k.clone(), r.value.clone(), *t))
+            .collect();
+        v.sort_by(|a, b| a.2.cmp(&b.2).then_with(|| a.0.to_vec().cmp(&b.0.to_vec())));
+        v
+    }
+
+    pub fn cache_size(s: &UnifiedRecordStore) -> usize {
+        node(s).records_cache.cache_size
+    }
+
+    pub fn max_records(s: &UnifiedRecordStore) -> usize {
+        node(s).config.max_records
+    }
+
+    pub fn received_payment_count(s: &UnifiedRecordStore) -> usize {
+        node(s).received_payment_count
+    }
+
+    pub fn start_timestamp(s: &UnifiedRecordStore) -> SystemTime {
+        node(s).timestamp
+    }
+
+    pub fn responsible_distance_range(s: &UnifiedRecordStore) -> Option<U256> {
+        node(s).responsible_distance_range
+    }
+
+    /// Distance of a record key to this store's own address, as the store computes it.
+    pub fn distance_to(s: &UnifiedRecordStore, k: &Key) -> U256 {
+        let addr = NetworkAddress::from_record_key(k);
+        convert_distance_to_u256(&node(s).local_address.distance(&addr))
+    }
+
+    pub fn filename_of(k: &Key) -> String {
+        NodeRecordStore::generate_filename(k)
+    }
+
+    pub fn key_of_filename(name: &str) -> Option<Key> {
+        NodeRecordStore::get_data_from_filename(name)
+    }
+
+    pub fn nonce_of(s: &UnifiedRecordStore, k: &Key) -> Vec<u8> {
+        generate_nonce_for_record(&node(s).encryption_details.1, k).to_vec()
+    }
+
+    /// What the store would write to the record file of `k` for value `value`.
+    pub fn file_bytes_for(s: &UnifiedRecordStore, k: &Key, value: Vec<u8>) -> Option<Vec<u8>> {
+        let r = Record {
+            key: k.clone(),
+            value,
+            publisher: None,
+            expires: None,
+        };
+        NodeRecordStore::prepare_record_bytes(r, node(s).encryption_details.clone())
+    }
+
+    /// What the store reads out of file content `bytes` found under the name of `k`.
+    pub fn value_of_file_bytes(s: &UnifiedRecordStore, k: &Key, bytes: Vec<u8>) -> Option<Vec<u8>> {
+        NodeRecordStore::get_record_from_bytes(bytes, k, &node(s).encryption_details)
+            .map(|r| r.into_owned().value)
+    }
+}
